@@ -2,6 +2,8 @@
 import math
 from decimal import Decimal
 
+D = Decimal
+
 from ..harness import Scenario
 from ..symx import ite, sand, sor, smax, smin, sabs, is_sym
 
@@ -104,6 +106,46 @@ def returns(ctx):
         _witness_stats(ctx, v, dur)
 
 
+class _StdStub:
+    """stands for a returns Series whose sample standard deviation (a C kernel) is the given number"""
+
+    def __init__(self, sd):
+        self.sd = sd
+
+    def std(self):
+        return self.sd
+
+
+def volatility_rule(ctx):
+    """the annualisation rule around the C kernels: volatility == std x sqrt(365 / interval) for EVERY sampling interval.
+    Series.std() is a stub returning a symbolic number; np.sqrt is answered by the engine's sqrt (r >= 0, r*r == x)."""
+    import demeter.result.metrics.calculator as c
+    from .. import symx
+
+    sd = ctx.flt("std_of_returns", 0, 10)
+    interval = ctx.flt("interval_in_day", D(1) / 1440, 60)
+    if ctx.sym:
+        import numpy as _np
+
+        class NpShim:
+            def __getattr__(self, k):
+                return getattr(_np, k)
+
+            @staticmethod
+            def sqrt(x):
+                return symx.sym_float(symx.sym_sqrt(x)) if symx.is_sym(x) else _np.sqrt(x)
+
+        c.np = NpShim()
+    vol = c.volatility(_StdStub(sd), interval)
+    ctx.outcome("volatility")
+    ctx.observe("~vol", vol)
+    if ctx.sym:
+        ctx.check("volatility == std of returns x sqrt(365 / sampling interval in days), for every interval", sand(vol >= 0, ctx.close(vol * vol * interval, sd * sd * 365, rel=1e-9, abs_=1e-18)))
+    else:
+        ctx.check("volatility == std of returns x sqrt(365 / sampling interval in days), for every interval", abs(vol - sd * math.sqrt(365 / interval)) <= 1e-9 * max(1.0, abs(vol)))
+    ctx.check("CANARY volatility ignores the interval", ctx.close(vol * vol, sd * sd * 365, rel=1e-9, abs_=1e-18) if ctx.sym else abs(vol - sd * math.sqrt(365)) <= 1e-12)
+
+
 def _witness_stats(ctx, v, dur):
     """NOT solver-decided: volatility / Sharpe / alpha / beta / performance_metrics recomputed from the definitions on this model"""
     import statistics
@@ -119,9 +161,9 @@ def _witness_stats(ctx, v, dur):
     mult = [v[t] / v[t - 1] for t in range(1, n)]
     rets = [m - 1 for m in mult]
     sd = statistics.stdev(mult)
-    interval = 1.0
-    vol = c.volatility(pd.Series(rets), interval)
-    ctx.check("WITNESS volatility == sample std of returns x sqrt(365/interval)", abs(vol - statistics.stdev(rets) * math.sqrt(365 / interval)) <= 1e-9 * max(1, abs(vol)))
+    for interval in (1 / 1440, 1 / 24, 7.0, 30.0, 1.0):
+        vol = c.volatility(pd.Series(rets), interval)
+        ctx.check("WITNESS volatility == sample std of returns x sqrt(365/interval)", abs(vol - statistics.stdev(rets) * math.sqrt(365 / interval)) <= 1e-9 * max(1, abs(vol)))
     if sd > 1e-12:
         apy = math.prod(mult) ** (365 / dur) - 1
         sh = c.sharpe_ratio(interval, dur, s.astype(float), 0.03)
@@ -150,6 +192,7 @@ def scenarios(tier):
     out = []
     for n in ns:
         out.append(Scenario(f"drawdown/n{n}", drawdown, params=dict(n=n), shadows=SHADOWS, entry=("max_draw_down", "_withdraw_with_high_low"), canary="CANARY drawdown is always zero", max_paths=6000, time_budget_s=600, witness_cap=40))
+    out.append(Scenario("volatility/annualisation_rule", volatility_rule, shadows=SHADOWS, entry=("volatility",), canary="CANARY volatility ignores the interval"))
     for n in (2, 3, 4) if tier == "quick" else (2, 3, 4, 5):
         out.append(Scenario(f"returns/n{n}", returns, params=dict(n=n), shadows=SHADOWS, entry=("return_rate", "return_rate_series", "return_multiple", "annualized_return", "return_value"), canary="CANARY total return is zero", witness_cap=12))
     return out
